@@ -20,8 +20,12 @@
 //     (circular sequences).  Matches that start at or after begin and end within
 //     begin+length are required; matches that end within the next 64 symbols are
 //     neither required nor forbidden; anything else reported is a violation.
-//     length < 0 (whole sequence) is generated as -1 only; begin is 0..len+1
-//     (negative begin is silently clamped by the Go wrappers: not generated).
+//     length < 0 (whole sequence) is -1 most of the time; one window in ten, and
+//     every window of TestPropWindow, is drawn from the boundary values of the two
+//     arguments (other negative lengths, 0, 2^15, 2^16, 2^31-65 .. 2^32-65-begin,
+//     begin up to 2^31-1): see the domain decisions at the top of window_test.go.
+//     Otherwise begin is 0..len+1 (negative begin is silently clamped by the Go
+//     wrappers: not generated).
 //   - Pattern strings with more than 64 positions are not generated (the builder
 //     does not check the limit it documents; outside the quantifier of the property).
 //   - IsPatternMatchSequence (predicat.go) is judged on its verdict only, with
@@ -174,6 +178,7 @@ func findClasses(c findCase, pp []ppos) (nontrivial bool, cl []string) {
 	if c.Length >= 0 && c.Begin+c.Length < n {
 		cl = append(cl, "window_shorter_than_rest")
 	}
+	cl = append(cl, windowClasses(n, c.Begin, c.Length)...)
 	if n == 0 {
 		cl = append(cl, "empty_sequence")
 	} else if n < len(pp) {
@@ -201,7 +206,9 @@ func findClasses(c findCase, pp []ppos) (nontrivial bool, cl []string) {
 	return
 }
 
-func genFind(t *rapid.T) findCase {
+// genFindSeq draws everything of a find case but its window; at is the offset of
+// the first planted copy, tlen the number of positions of the pattern.
+func genFindSeq(t *rapid.T) (c findCase, at, tlen int) {
 	budget := drawBudget(t)
 	low := rapid.IntRange(0, 4).Draw(t, "low_complexity") == 0
 	pattern, template := genPattern(t, patOpts{lowComplx: low})
@@ -209,8 +216,13 @@ func genFind(t *rapid.T) findCase {
 	if rapid.IntRange(0, 4).Draw(t, "sprinkle") == 0 {
 		seq = sprinkle(t, seq)
 	}
-	begin, length := drawWindow(t, len(seq), len(template), at)
-	return findCase{Pattern: pattern, Budget: budget, Seq: seq, Begin: begin, Length: length}
+	return findCase{Pattern: pattern, Budget: budget, Seq: seq}, at, len(template)
+}
+
+func genFind(t *rapid.T) findCase {
+	c, at, tlen := genFindSeq(t)
+	c.Begin, c.Length = drawWindow(t, len(c.Seq), tlen, at)
+	return c
 }
 
 func TestPropFind(t *testing.T) {
@@ -317,6 +329,7 @@ func indelClasses(c indelCase, pp []ppos) (nontrivial bool, cl []string) {
 	if c.Begin > 0 {
 		cl = append(cl, "window_begin>0")
 	}
+	cl = append(cl, windowClasses(n, c.Begin, c.Length)...)
 	if n <= len(pp) {
 		cl = append(cl, "indel_sequence_not_longer_than_pattern")
 	}
@@ -324,6 +337,13 @@ func indelClasses(c indelCase, pp []ppos) (nontrivial bool, cl []string) {
 }
 
 func genIndel(t *rapid.T) indelCase {
+	c, at, tlen := genIndelSeq(t)
+	c.Begin, c.Length = drawWindow(t, len(c.Seq), tlen, at)
+	return c
+}
+
+// genIndelSeq draws everything of an indel case but its window (see genFindSeq).
+func genIndelSeq(t *rapid.T) (c indelCase, at, tlen int) {
 	budget := drawBudget(t)
 	if budget == 0 && rapid.Bool().Draw(t, "budget_up") {
 		budget = 1
@@ -336,13 +356,12 @@ func genIndel(t *rapid.T) indelCase {
 	if len(seq) <= len(template) && rapid.IntRange(0, 3).Draw(t, "keep_short") != 0 {
 		seq += gen.Seq(t, "pad", len(template)+1-len(seq)+rapid.IntRange(0, 3).Draw(t, "padlen"), gen.ACGT)
 	}
-	begin, length := drawWindow(t, len(seq), len(template), at)
 	realign := pure
 	if pure && len(seq) <= len(template) {
 		evid.Excluded("indel_seq_not_longer_than_pattern", 1)
 		realign = false
 	}
-	return indelCase{Pattern: pattern, Budget: budget, Seq: seq, Begin: begin, Length: length, Realign: realign}
+	return indelCase{Pattern: pattern, Budget: budget, Seq: seq, Realign: realign}, at, len(template)
 }
 
 func TestPropIndel(t *testing.T) {
